@@ -580,7 +580,7 @@ func TestExhaustiveRedeclared(t *testing.T) {
 			for x := 0; x < n; x++ {
 				for sp := 0; sp < n; sp++ {
 					for pi, perm := range perms {
-						if n == 5 && (pi+idx+x+sp)%6 != 0 { // n=5: one order in six
+						if (n == 4 && !evid.Thorough() && (pi+idx+x+sp)%4 != 0) || (n == 5 && (pi+idx+x+sp)%20 != 0) { // quick, n=4: one order in four; n=5: one in twenty
 							continue
 						}
 						px := 0
@@ -616,9 +616,9 @@ func TestExhaustiveRedeclared(t *testing.T) {
 			}
 		})
 	}
-	sub := ""
+	sub := " (n=4: one order in four)"
 	if maxN >= 5 {
-		sub = " (n=5: one order in six)"
+		sub = " (n=5: one order in twenty)"
 	}
 	evid.Exhaustive(fmt.Sprintf("every recursive tree with 2<=n<=%d nodes x every node declared twice x every parent id on the superseded declaration (every node, itself included; rank kept or changed) x every order of the last declarations%s x every position of the superseded line before the last declaration; built by AddNewTaxa(replace=true)/ReindexParent/AddNewName/AddNewAlias as the loader does, one case in eight through LoadNCBITaxDump; every pair over nodes, merged ids and 2 unknown ids x every third id", maxN, sub))
 }
